@@ -10,6 +10,8 @@ import (
 	"flag"
 	"fmt"
 	"sort"
+	"sync/atomic"
+	"time"
 
 	openfgav1 "github.com/openfga/api/proto/openfga/v1"
 	"github.com/openfga/language/pkg/go/transformer"
@@ -143,7 +145,22 @@ func docModelOf(m *openfgav1.AuthorizationModel) *docModel {
 	return out
 }
 
-func recordDoc(id, text string) (tr docTrace) {
+func recordDoc(id, text string) docTrace {
+	if atomic.LoadInt32(&parseHangs) >= 3 {
+		return docTrace{ID: id, Events: []docEvent{}, Exts: []string{}, Errs: []parseErr{}, Panic: "hang: not run"}
+	}
+	done := make(chan docTrace, 1)
+	go func() { done <- recordDocNow(id, text) }()
+	select {
+	case t := <-done:
+		return t
+	case <-time.After(30 * time.Second):
+		atomic.AddInt32(&parseHangs, 1)
+		return docTrace{ID: id, Events: []docEvent{}, Exts: []string{}, Errs: []parseErr{}, Panic: "hang: the parser did not return within 30 s"}
+	}
+}
+
+func recordDocNow(id, text string) (tr docTrace) {
 	tr = docTrace{ID: id, Events: []docEvent{}, Exts: []string{}, Errs: []parseErr{}}
 	transformer.VerifDocTrace = func(ev string, a []string, st transformer.VerifDocState) {
 		if a == nil {
